@@ -99,6 +99,16 @@ fn run_g<A: SxK>(c: &Case, out: &mut Out) {
                 out.stage = "Kmer::from_str";
                 let f = out.catch(|| api.from_str(&text));
                 out.check(matches!(&f, Ok(Ok(x)) if *x == want), || (format!("{cn}/kmer<{sn}>/from_str-wrong-kmer"), format!("Kmer<_,{k},{sn}>::from_str({text:?}) = {:x?}, want {want:#x}", f)));
+                // the text must be exactly K symbol characters: terminators and padding are not tolerated
+                if (want as usize) % 4 == 0 || k <= 3 {
+                    for (pre, post) in [("", "\n"), ("", "\r\n"), ("", "\r"), ("", " "), (" ", ""), ("\n", ""), ("", "\t"), ("", "\0")] {
+                        let t = format!("{pre}{text}{post}");
+                        let f = out.catch(|| api.from_str(&t));
+                        out.check(matches!(&f, Ok(Err(_))), || {
+                            (format!("{cn}/kmer<{sn}>/from_str-accepts-padded-text"), format!("Kmer<_,{k},{sn}>::from_str({t:?}) = {:x?}, expected an error", f))
+                        });
+                    }
+                }
                 out.stage = "Kmer display/len";
                 let d = out.catch(|| (api.display(want), api.len(want)));
                 out.check(matches!(&d, Ok((t, (l, e))) if *t == text && *l == k && !*e), || {
